@@ -51,7 +51,9 @@ ASSUMPTIONS = ['resolutions positive (closest_level: strictly decreasing, stretc
                'closest_level_spec: threshold_res = None; with thresholds closest_level_thr_general (switch rule at the level where the '
                'current threshold is hit) and closest_level_thr_one_per_gap (closed form when every threshold has a gap of its own) '
                'are proved; several thresholds in one gap / above the first level only through the general rule and the correspondence',
-               'foreign-SRS requests: PROJ transformation of the 16 outline points is taken as given (harness calls the same PROJ)']
+               'foreign-SRS requests: PROJ transformation of the 16 outline points is taken as given (harness calls the same PROJ)',
+               'configured grids: options set on the grid / a base grid / under globals / defaults 1.15, 4.0, 256 (configured_grid); other '
+               'grid options (min_res, max_res, res_factor, align_resolutions_with, bbox_srs) are not part of the configuration stream']
 EXPLANATION = 'grid arithmetic proved over Z for all grids; implementation compared on exact and realistic streams'
 GEN = ['Gen_grid_int.v']
 CORPUS = os.path.join(os.path.dirname(os.path.dirname(os.path.dirname(os.path.abspath(__file__)))), 'corpus', 'C03')
@@ -410,7 +412,9 @@ def closest_ambiguous(gc, q):
     """does float rounding (of res*stretch_factor, res0*max_shrink_factor) change the outcome of a comparison?
     q: the double the implementation works with"""
     g = gc.grid
-    fl = level_signature([float(r) for r in g.resolutions], q, g.stretch_factor, g.max_shrink_factor, lambda a, b: a * b)
+    # the factors the grid is supposed to work with (= its attributes, except for grids built from a configuration where
+    # gc.sf / gc.shr are the configured values)
+    fl = level_signature([float(r) for r in g.resolutions], q, float(gc.sf), float(gc.shr), lambda a, b: a * b)
     ex = level_signature(gc.res, frac(q), gc.sf, gc.shr, lambda a, b: a * b)
     return fl != ex
 
@@ -762,6 +766,8 @@ def run(ctx):
 
     # --- generated _create_tile_list against the Python generator, on arbitrary lists
     gen_list_cases(R)
+    # --- grids built through the configuration loader (grid options, globals, defaults, base grids)
+    grids += config_cases(R)
     # --- MetaGrid.get_affected_level_tiles (rectangle -> meta tiles; seeding / cleanup walker) on the exact grids
     meta_cases(R, [gc for gc in gen_grids if gc.kind == 'exact'])
     # --- requests in another SRS than the grid (outline points transformed by PROJ)
@@ -773,7 +779,7 @@ def run(ctx):
 
     ctx.distribution['skipped_float_rounding_sensitive'] = R.skipped
     ctx.distribution['checked_by_tolerance_oracle_only'] = R.tolerance_oracle
-    defs = '\n'.join(g.definition() for g in grids)
+    defs = '\n'.join(getattr(g, 'definition_text', None) or g.definition() for g in grids)
     defs += '\n' + '\n'.join('Definition %s_sizes : list (Z * Z) := %s.' % (g.name, llit(g.obs_sizes, lambda p: '(%d, %d)' % p))
                              for g in grids)
     T = R.T
@@ -869,6 +875,128 @@ def envelope_cases(R):
         lo_x, hi_x, lo_y, hi_y = min(bb[0], bb[2]), max(bb[0], bb[2]), min(bb[1], bb[3]), max(bb[1], bb[3])
         if bb[0] <= bb[2] and not all(c in pts for c in ((lo_x, lo_y), (hi_x, lo_y), (hi_x, hi_y), (lo_x, hi_y))):
             ctx.fail('envelope-corners', 'generate_envelope_points(%r, %d) misses a corner' % (bb, n), {'bbox': bb, 'n': n, 'points': pts})
+
+
+def config_cases(R):
+    """Grids as the service builds them: mapproxy.config.loader.ProxyConfiguration(conf).grids[name].tile_grid().
+    stretch_factor / max_shrink_factor / tile_size are set on the grid, under globals (image.stretch_factor,
+    image.max_shrink_factor, grid.tile_size), on a base grid, or left to the defaults (1.15, 4.0, 256).  Oracle: the grid
+    has the configured values (own option, else globals, else default), and it *behaves* so: closest_level and
+    get_affected_bbox_and_level are checked against the specification for the configured factors on and next to the
+    boundaries res = r_l, r_l / stretch, r_0 * max_shrink.  Model: configured_grid (conf_value / conf_inherit)."""
+    ctx, rng = R.ctx, R.ctx.rng
+    try:
+        from mapproxy.config.loader import ProxyConfiguration
+    except Exception as e:  # noqa
+        ctx.problem('harness', 'configuration loader cannot be imported: %r' % (e,))
+        return []
+    out = []
+
+    def opt(v):
+        if v is None:
+            return 'None'
+        if isinstance(v, (list, tuple)):
+            return '(Some (%d, %d))' % (v[0], v[1])
+        f = frac(float(v))
+        return '(Some (%d, %d))' % (f.numerator, f.denominator)
+
+    for i in range(ctx.n(8, 40)):
+        glob = {}
+        g_sf = rng.choice([None, None, 1.25, 1.5, 2.0])
+        g_shr = rng.choice([None, None, 2.0, 8.0])
+        g_ts = rng.choice([None, None, [128, 128], [100, 50]])
+        if g_sf is not None:
+            glob.setdefault('image', {})['stretch_factor'] = g_sf
+        if g_shr is not None:
+            glob.setdefault('image', {})['max_shrink_factor'] = g_shr
+        if g_ts is not None:
+            glob.setdefault('grid', {})['tile_size'] = list(g_ts)
+        confs = {}
+        for name in ('a', 'b', 'c'):
+            res = sorted({10 * rng.randrange(1, 300) for _ in range(rng.randrange(2, 7))}, reverse=True)
+            x0, y0 = rng.randrange(-5000, 5000), rng.randrange(-5000, 5000)
+            c = {'srs': 'EPSG:25832', 'bbox': [x0, y0, x0 + res[0] * rng.randrange(100, 900), y0 + res[0] * rng.randrange(100, 900)],
+                 'res': res, 'origin': rng.choice(['ll', 'ul', 'sw', 'nw'])}
+            sf = rng.choice([None, 1.0, 1.125, 1.25, 1.5, 2.0, 1.15])
+            shr = rng.choice([None, 1.5, 2.0, 4.0, 8.0])
+            ts = rng.choice([None, [64, 32], [256, 256], [10, 10]])
+            if sf is not None:
+                c['stretch_factor'] = sf
+            if shr is not None:
+                c['max_shrink_factor'] = shr
+            if ts is not None:
+                c['tile_size'] = list(ts)
+            confs[name] = c
+        # b inherits from a and overrides some options
+        b = {'base': 'a'}
+        for key, choices in (('stretch_factor', [None, None, 1.0, 1.5]), ('max_shrink_factor', [None, None, 2.0]),
+                             ('tile_size', [None, None, [32, 32]])):
+            v = rng.choice(choices)
+            if v is not None:
+                b[key] = v
+        confs['b'] = b
+        conf = {'globals': glob, 'grids': {k: dict(v) for k, v in confs.items()}, 'services': {}}
+        rep_conf = json.loads(json.dumps(conf))
+        try:
+            pc = ProxyConfiguration(conf, conf_base_dir=ctx.scratch, seed=False, renderd=False)
+            built = {name: pc.grids[name].tile_grid() for name in ('a', 'b', 'c')}
+        except Exception as e:  # noqa
+            ctx.fail('config-raises', 'configuration with valid grid options is refused: %r' % (e,), {'conf': rep_conf})
+            continue
+        for name in ('a', 'b', 'c'):
+            own = confs[name]
+            base = confs['a'] if name == 'b' else {}
+            g = built[name]
+            loc = {k: (own.get(k) if own.get(k) is not None else base.get(k)) for k in ('stretch_factor', 'max_shrink_factor', 'tile_size')}
+            want_sf = loc['stretch_factor'] if loc['stretch_factor'] is not None else (g_sf if g_sf is not None else 1.15)
+            want_shr = loc['max_shrink_factor'] if loc['max_shrink_factor'] is not None else (g_shr if g_shr is not None else 4.0)
+            want_ts = tuple(loc['tile_size'] or g_ts or (256, 256))
+            geo = confs['a'] if name == 'b' else own
+            rep = {'conf': rep_conf, 'grid_name': name}
+            ctx.case(('config', i, name, json.dumps(rep_conf, sort_keys=True)), True,
+                     {'fn': 'GridConfiguration.tile_grid', 'grid_conf': own, 'globals': glob,
+                      'result': {'stretch_factor': g.stretch_factor, 'max_shrink_factor': g.max_shrink_factor,
+                                 'tile_size': list(g.tile_size)}} if len(ctx.samples) < 6 else None)
+            ctx.count('config:stretch_from=' + ('grid' if own.get('stretch_factor') is not None else 'base' if loc['stretch_factor'] is not None
+                                                else 'globals' if g_sf is not None else 'default'))
+            got = (g.stretch_factor, g.max_shrink_factor, tuple(g.tile_size), g.origin, [float(r) for r in g.resolutions],
+                   tuple(float(v) for v in g.bbox))
+            want = (want_sf, want_shr, want_ts, 'ul' if geo['origin'] in ('ul', 'nw') else 'll', [float(r) for r in geo['res']],
+                    tuple(float(v) for v in geo['bbox']))
+            if got != want:
+                ctx.fail('config-grid-option', 'grid %r is built with (stretch, shrink, tile size, origin, res, bbox) = %r, configured is %r'
+                         % (name, got, want), dict(rep, built=list(got), configured=list(want)))
+            gc = GridCase('k%d%s' % (i, name), g, stretch=frac(float(want_sf)), shrink=frac(float(want_shr)), extra_den=8)
+            gc.kind = 'exact'
+            zb = [gc.z(v) for v in gc.bbox]
+            gc.definition_text = ('Definition %s : grid := configured_grid (mkGrid %s %s %s %s 1 1 %s %s 1 1 1 1) '
+                                  '(conf_inherit %s %s) %s (conf_inherit %s %s) %s (conf_inherit %s %s) %s.' % (
+                                      gc.name, zlit(zb[0]), zlit(zb[1]), zlit(zb[2]), zlit(zb[3]),
+                                      llit([gc.z(r) for r in gc.res]), blit(gc.ul),
+                                      opt(own.get('stretch_factor')), opt(base.get('stretch_factor')), opt(g_sf),
+                                      opt(own.get('max_shrink_factor')), opt(base.get('max_shrink_factor')), opt(g_shr),
+                                      opt(own.get('tile_size')), opt(base.get('tile_size')), opt(g_ts)))
+            out.append(gc)
+            check_grid(R, gc)
+            # behaviour: level choice for the configured factors
+            resl = [float(x) for x in gc.res]
+            cand = []
+            for lr in resl:
+                for sfv in {float(want_sf), 1.15, float(g_sf or 1.15)}:
+                    cand += [lr / sfv, lr / sfv + 0.125, lr / sfv - 0.125]
+                cand += [lr, lr * 0.95, lr * 0.8]
+            rng.shuffle(cand)
+            for q in cand[:ctx.n(8, 16)]:
+                q = math.floor(q * 2 ** 12) / 2.0 ** 12
+                if q > 0:
+                    check_closest(R, gc, q)
+            for shrv in {float(want_shr), 4.0, float(g_shr or 4.0)}:
+                for sz in ((1, 1), (8, 4)):
+                    t = resl[0] * shrv
+                    a, b2 = float(gc.bbox[0]), float(gc.bbox[1])
+                    for tt in (t, t + 0.125, t - 0.125):
+                        check_afflevel(R, gc, (a, b2, a + tt * sz[0], b2 + tt * sz[1] * 2), sz)
+    return out
 
 
 def meta_cases(R, exact_grids):
